@@ -108,7 +108,9 @@ def run(tier):
         for _ in range(40 if tier == "quick" else 400):
             data = [r.randrange(256) for _ in range(r.choice([0, 1, 5, 26, 300]))]
             st = r.randrange(65536)
-            for mk in (bytes, bytearray, lambda d: memoryview(bytes(d)), list, tuple):
+            import itertools as _it
+            for mk in (bytes, bytearray, lambda d: memoryview(bytes(d)), list, tuple, iter, lambda d: (x for x in d),
+                       lambda d: _it.chain(d[:len(d) // 2], d[len(d) // 2:]), lambda d: map(int, d)):
                 tid += 1
                 try:
                     out = crc(mk(data), _I(st) if tid % 2 else st)
